@@ -85,6 +85,10 @@ type Msg struct {
 	// default attributes (parts with a placeholder media type) and everything is set afterwards: Msg.SetEncoding /
 	// SetCharset / SetBoundary and, per part, Part.SetContentType / SetEncoding / SetCharset / SetDescription
 	Setters int `json:"setters,omitempty"`
+	// Donor: history — the embeds and attachments are first added to ANOTHER Msg and taken over from it with
+	// SetEmbeds(other.GetEmbeds()) / SetAttachments(other.GetAttachments()); the other Msg is then recycled: Reset(),
+	// three new attachments and embeds (1), and additionally rendered once (2)
+	Donor int `json:"donor,omitempty"`
 }
 
 // MWFooter is the text middleware 2 appends; MWFile is the attachment middleware 3 adds.
@@ -367,7 +371,14 @@ func Build(s Msg, h *Hooks) (*mail.Msg, error) {
 			}
 		}
 	}()
+	fileTarget := m
+	var donor *mail.Msg
+	if s.Donor > 0 {
+		donor = mail.NewMsg()
+		fileTarget = donor
+	}
 	mkFiles := func(kind string, fs []File, attach bool) {
+		m := fileTarget
 		var structs []*mail.File
 		for i, f := range fs {
 			name := fmt.Sprintf("%s%d", kind, i)
@@ -479,6 +490,23 @@ func Build(s Msg, h *Hooks) (*mail.Msg, error) {
 		mkFiles("embed", s.Embeds, false)
 		mkFiles("attach", s.Attach, true)
 	}
+	if donor != nil {
+		// the files were added to another Msg and are taken over through its getters; that Msg is then recycled:
+		// Reset(), new files, a rendering
+		m.SetEmbeds(donor.GetEmbeds())
+		m.SetAttachments(donor.GetAttachments())
+		donor.Reset()
+		_ = donor.From("donor@snd.example")
+		_ = donor.To("donor-rcpt@rcp.example")
+		donor.SetBodyString(mail.TypeTextPlain, "the donor message is used for something else now\r\n")
+		for i := 0; i < 3; i++ {
+			_ = donor.AttachReader(fmt.Sprintf("intruder-attachment-%d.bin", i), strings.NewReader("content of a file that belongs to the OTHER message"))
+			_ = donor.EmbedReader(fmt.Sprintf("intruder-embed-%d.png", i), strings.NewReader("content of an embed that belongs to the OTHER message"))
+		}
+		if s.Donor == 2 {
+			_, _ = donor.WriteTo(io.Discard)
+		}
+	}
 	if s.Setters == 2 {
 		msgSetters(m)
 		for _, f := range later {
@@ -545,6 +573,9 @@ func (s Msg) Describe() string {
 	}
 	if s.MW != 0 {
 		fmt.Fprintf(&b, " middleware=%d", s.MW)
+	}
+	if s.Donor != 0 {
+		fmt.Fprintf(&b, " files-taken-over-from-a-recycled-msg=%d", s.Donor)
 	}
 	if s.Setters != 0 {
 		fmt.Fprintf(&b, " attributes-through-setters=%d", s.Setters)
